@@ -463,6 +463,13 @@ class modict(odict):
         super(modict, self).__init__()  # must do this first
         self.update(*pa, **kwa)
 
+    def __reduce__(self):
+        """
+        pickle and copy support. Rebuild from all the values of every key not just
+        the newest and do not also replay the newest as dict items
+        """
+        return (self.__class__, tuple(), self.allitems())
+
     def __getitem__(self, key):
         return super(modict, self).__getitem__(key)[-1] #newest
     def __setitem__(self, key, value):
